@@ -189,8 +189,12 @@ class Run:
             rec.emit("step", op="activate", phase="begin")
             try:
                 res = self.sm.activate_initial_state()
+                import inspect as _i
+                # inside a running loop the caller writes `await sm.activate_initial_state()`, whatever
+                # the machine's state: the call must hand back something awaitable
+                awaitable = _i.isawaitable(res) if (self.sc.driver == "inloop" and self.spec.get("any_async")) else None
                 res = yield res
-                rec.emit("step", op="activate", phase="end")
+                rec.emit("step", op="activate", phase="end", awaitable=awaitable)
             except BaseException as err:  # noqa: BLE001
                 if not isinstance(err, Exception) and type(err).__name__ != "FaultBase":
                     raise
